@@ -360,6 +360,19 @@ def lossy_apis(run, R="TAB-fmt"):
             c = t.get("callee") or ""
             if LOSSY.search(c):
                 run.violation(R, "%s|lossy-iteration|%s" % (R, root), f.loc(t["span"]), "%s iterates with `%s`, which drops a final chunk shorter than the chunk size: the last bytes of an output whose length is not a multiple of the granule would be lost" % (root, c.rsplit("::", 1)[-1]))
+    # digit -> character: the listings print digits of bases up to 128 (tables/cli.json); a conversion that is only defined up to
+    # base 36, or a constant character standing in for "no such digit", prints the same character for different bit patterns
+    for f in run.prog.real_fns():
+        root = f.raw.get("root") or f.id
+        if not root.startswith("util::bitvec_format"):
+            continue
+        for bi, t in f.calls():
+            c = t.get("callee") or ""
+            partial = re.search(r"(char::from_digit|<impl char>::from_digit|char::from_u32|<impl char>::from_u32)$", c)
+            fallback = re.search(r"Option::<T>::(unwrap_or|unwrap_or_default)$", c) and (t.get("arg_tys") or [""])[0] == "std::option::Option<char>"
+            if partial or fallback:
+                run.violation(R, "%s|lossy-digit|%s" % (R, root), f.loc(t["span"]),
+                              "%s turns a digit value into a character with `%s`, which has no answer (or one fallback character) for digit values of 36 and more: with base:64 / base:128 different bit patterns would be listed alike" % (root, c.rsplit("::", 1)[-1]))
     run.check(n >= 8, R, R + "|lossy-iteration|scope", "-", "no remainder-dropping iteration in the %d formatter functions" % n, "formatter functions not found")
 
 
